@@ -146,10 +146,16 @@ HoldsIndex(cl, c, r) ==
       [] cl = "ClampLow"      -> ClampLowOK(BLe, r.cb, r.qb, c.re, res)
       [] cl = "ClampHigh"     -> ClampHighOK(BLe, r.cb, r.qb, c.re, res)
       [] OTHER -> TRUE
+\* c.adt = dtype of the array written into (f8 f4 i4 i2 u1 b1; absent: f8).  The addressed cells hold the value AS REPRESENTED
+\* IN THE ARRAY'S DTYPE: the values used are small whole numbers, which every numeric dtype holds unchanged; a boolean array holds
+\* "non-zero".  (c.vt, the type of the value -- Python int / float / bool, numpy scalars, arrays of another dtype -- changes nothing.)
+ADT(c) == IF "adt" \in DOMAIN c THEN c.adt ELSE "f8"
+CastTo(adt, v) == IF adt = "b1" THEN (IF v = 0 THEN 0 ELSE 1) ELSE v
+CastSeq(adt, vs) == [k \in 1..Len(vs) |-> CastTo(adt, vs[k])]
 HoldsSet(cl, c, r) ==
     CASE cl = "IndexBracket"        -> SetHit(r) => r.raised = ""           \* every query has a bracket: the call must succeed
       [] cl = "OutsideRaises"       -> ~SetHit(r) => r.raised # ""
-      [] cl = "SetExactlyAddressed" -> SetAddressedOK(SetShape(r), SetIx(r), SetHit(r), r.after, r.value)
+      [] cl = "SetExactlyAddressed" -> SetAddressedOK(SetShape(r), SetIx(r), SetHit(r), r.after, CastSeq(ADT(c), r.value))
       [] cl = "OthersUnchanged"     -> SetOthersOK(SetShape(r), SetIx(r), SetHit(r), r.before, r.after)
       [] OTHER -> TRUE
 Holds16(cl, o) ==
